@@ -14,7 +14,8 @@ package goja
 // (strings, symbols, BigInt: uninterpreted).
 //@ iface Value.SameAs
 //@   props C04 C11
-//@   ensures result == specSameValue(self, p0) [samevalue]
+//@   ensures specSameValueModelled(self) ==> result == specSameValue(self, p0) [samevalue]
+//@   ensures !specSameValueModelled(self) ==> result == specSameValueOther(self, p0) [samevalue-other-is-definitional]
 //@   assigns nothing
 
 //@ func (*proxyObject).__isCompatibleDescriptor
